@@ -181,6 +181,43 @@ def tensor_setitem_pinned (_ : Params) (ops : List View) : Built :=
   let b := ops.length
   { prog := [.write 1 [1], .fresh [] [1], .write 0 ((List.range b).drop 1), .alias 0], res := [("data", b + 1)] }
 
+/-- element-wise operators, comparisons and logical operations (`tenfun` / `tenfun_binary`,
+tensor.py:1983-2001, 2344-2743): `f(self.data, other.data)` is a new array, wrapped by the
+no-copy constructor (a copy only if the function returned a non-F-ordered array). -/
+def tensor_elementwise (p : Params) (ops : List View) : Built :=
+  let b := ops.length
+  { prog := .fresh p.shape (List.range b) :: tensorCtor b (b + 1) p.shape false, res := [("data", b + 2)] }
+
+/-- `ttv` (tensor.py:1784-1805): `c = self.data.copy()`, transposed so that the multiplied modes
+come last (`p.perm`), then per mode an F-reshape to a matrix and a `dot` (new array); the
+last product is wrapped without copying.  flag "scalar": every mode multiplied out. -/
+def tensor_ttv (p : Params) (ops : List View) : Built :=
+  let b := ops.length
+  if p.flag == "scalar" then
+    { prog := [.copy 0, .transpose b p.perm, .reshapeF (b + 1) p.dims, .fresh [] (List.range b)], res := [] }
+  else
+    { prog := [.copy 0, .transpose b p.perm, .reshapeF (b + 1) p.dims, .fresh p.shape (List.range b)] ++
+              tensorCtor (b + 3) (b + 4) p.shape false,
+      res := [("data", b + 5)] }
+
+/-- `ttm` with one matrix (tensor.py:1607-1628): `self.permute(order).data` (transpose + copying
+constructor), F-reshape to a matrix, matrix product (new array), F-reshape, transpose back
+(`p.dims` = argsort(order)), copying constructor. `p.perm` = order. -/
+def tensor_ttm (p : Params) (ops : List View) : Built :=
+  let b := ops.length
+  { prog := [.transpose 0 p.perm] ++ tensorCtor b (b + 1) [] true ++
+            [.reshapeF (b + 2) [], .fresh [] (List.range b), .reshapeF (b + 4) [], .transpose (b + 5) p.dims] ++
+            tensorCtor (b + 6) (b + 7) p.shape true,
+    res := [("data", b + 8)] }
+
+/-- `mttkrp` (tensor.py:1040-1077): the data is viewed as a matrix (F-reshape of F-contiguous
+data), multiplied with a Khatri-Rao product (new arrays), result passed through
+`to_memory_order`. -/
+def tensor_mttkrp (_ : Params) (ops : List View) : Built :=
+  let b := ops.length
+  { prog := [.fresh [] ((List.range b).drop 1), .reshapeF 0 [], .fresh [] [b, b + 1], .asF (b + 2)],
+    res := [("arr", b + 3)] }
+
 /-! ### sparse tensor -/
 
 /-- `sptensor(subs, vals, shape, copy)` (sptensor.py:131-175).  operands: subs, vals.
@@ -209,6 +246,13 @@ scalar `__mul__`, … -/
 def sptensor_newsubs_copyvals (_ : Params) (ops : List View) : Built :=
   let b := ops.length
   { prog := [.fresh [] [0], .copy b, .copy 1], res := [("subs", b + 1), ("vals", b + 2)] }
+
+/-- the receiver's subscripts with newly computed values through the copying constructor:
+`ones`, `__neg__`, scalar `__mul__` / `__truediv__`, `scale`, `__mul__` / `__truediv__` with a
+dense or Kruskal operand: `sptensor(self.subs, newvals, self.shape)`. -/
+def sptensor_copysubs_newvals (_ : Params) (ops : List View) : Built :=
+  let b := ops.length
+  { prog := [.copy 0, .fresh [] ((List.range b).drop 1), .copy (b + 1)], res := [("subs", b), ("vals", b + 2)] }
 
 /-- `spmatrix()` (sptensor.py:1764), repaired with `copy=True`: the coo data is a copy of
 `vals.transpose()[0]`; row/col are converted index arrays. -/
@@ -308,6 +352,12 @@ def ktensor_tolist (p : Params) (ops : List View) : Built :=
 def ktensor_tolist_pinned (p : Params) (ops : List View) : Built :=
   let b := ops.length
   { prog := (regs 1 p.n).map .alias, res := ((List.range p.n).map (fun i => s!"{i}")).zip (regs b p.n) }
+
+/-- `full()` / `to_tensor()` / `double()` (ktensor.py:945-956): Khatri-Rao products and a matrix
+product give a new array, wrapped by the copying constructor. -/
+def ktensor_full (p : Params) (ops : List View) : Built :=
+  let b := ops.length
+  { prog := .fresh [] (List.range b) :: tensorCtor b (b + 1) p.shape true, res := [("data", b + 2)] }
 
 /-- receiver afterwards = the receiver's own arrays (helper for in-place entries). -/
 def keepAll (b n : Nat) : Prog × List (String × Nat) :=
@@ -640,6 +690,12 @@ def table : List Entry := [
   ⟨"tensor", "to_sptensor", pf, tensor_to_sptensor, noPre⟩,
   ⟨"tensor", "to_tenmat", pf, tensor_to_tenmat, noPre⟩,
   ⟨"tensor", "__setitem__", fun _ => .inPlace [0], tensor_setitem, atLeast 1⟩,
+  ⟨"tensor", "elementwise", pf, tensor_elementwise, noPre⟩,
+  ⟨"tensor", "ttv", pf, tensor_ttv, noPre⟩,
+  ⟨"tensor", "ttm", pf, tensor_ttm, noPre⟩,
+  ⟨"tensor", "mttkrp", pf, tensor_mttkrp, noPre⟩,
+  ⟨"sptensor", "copysubs_newvals", pf, sptensor_copysubs_newvals, noPre⟩,
+  ⟨"ktensor", "full", pf, ktensor_full, noPre⟩,
   ⟨"sptensor", "__init__", noCopyIf [0, 1], sptensor_init, atLeast 2⟩,
   ⟨"sptensor", "copy", pf, sptensor_copy, noPre⟩,
   ⟨"sptensor", "find", fun _ => .knownAlias [0, 1], sptensor_find, atLeast 2⟩,
